@@ -598,7 +598,36 @@ def expect_gap_decline(ctx, P, seed, threshold):
         ctx.fail("invalid_argument_rejected", "gap penalty %r accepted by align_local_gapped (documented: must be negative)" % (P.gp,))
 
 
+def case_gapped_growth(rng, ctx):
+    """Both extension regions are longer than the 100 x 100 table the implementation starts with, and the best path runs
+    along the edge of that table (a long insertion right behind the seed): the tables have to grow in both dimensions."""
+    k = 4
+    hit, miss = [(5, -4), (2, -3), (3, -2)][int(rng.integers(3))]
+    matrix = np.full((k, k), miss, dtype=np.int64)
+    np.fill_diagonal(matrix, hit)
+    pre = [int(x) for x in rng.integers(0, k, size=int(rng.integers(1, 6)))]
+    ins = [int(x) for x in rng.integers(0, k, size=int(rng.choice([99, 100, 101, 104, 120])))]
+    tail = [int(x) for x in rng.integers(0, k, size=int(rng.integers(101, 140)))]
+    c1, c2 = pre + tail, pre + ins + tail
+    if rng.random() < 0.5:
+        c1, c2 = c2, c1
+    a1 = G.alphabet(k, "int", 0)
+    d = dict(k=(k, k), K=(k, k), akind=("int", "int"), same_alph=True, a=(a1, a1), A=(a1, a1), matrix=matrix, mkind="table_growth",
+             mdtype="int32", c1=c1, c2=c2, gp=int(rng.choice([-1, -1, -2])) if rng.random() < 0.7 else (-3, -1))
+    log_pair(ctx, d)
+    P = Pair(d)
+    ctx.op("input_profile_table_growth")
+    seed = (len(pre) - 1, len(pre) - 1)
+    direction = str(rng.choice(["downstream", "both"]))
+    threshold = P.nonbinding_threshold()
+    ctx.log({"seed": list(seed), "threshold": threshold, "direction": direction, "max_number": 1})
+    call_gapped(ctx, P, seed, threshold, direction, 1)
+    ctx.mark_nontrivial()
+
+
 def case_gapped(rng, ctx, allseeds):
+    if not allseeds and ctx.index % 40 == 11:
+        return case_gapped_growth(rng, ctx)
     d = gen_pair(rng, ctx, lo_len=1, small=allseeds, need_negative_gap=True, profiles=True)
     log_pair(ctx, d)
     P = Pair(d)
